@@ -13,7 +13,7 @@ package alloctxn
 //@ specfunc listsDisjoint(a *AllocTxn) = base(a.allocBnums) != base(a.freeBnums) && base(a.allocBnums) != base(a.allocInums) && base(a.allocBnums) != base(a.freeInums) && base(a.freeBnums) != base(a.allocInums) && base(a.freeBnums) != base(a.freeInums) && base(a.allocInums) != base(a.freeInums)
 //@ specfunc listsValid(a *AllocTxn) = listsDisjoint(a) && allocBValid(a) && freeBValid(a) && allocIValid(a) && freeIValid(a)
 // Allocator invariant (C15-G4 / C04): every non-data block and the two reserved inodes stay marked.
-//@ specfunc allocInv() = (forall b uint64 :: b < 32768*(dsksize/32768+1) && !validBlk(b) ==> abits[theBalloc][b]) && abits[theIalloc][0] && abits[theIalloc][1] && asize[theBalloc] == 32768*(dsksize/32768+1) && asize[theIalloc] == 32768
+//@ specfunc allocInv() = (forall b uint64 :: b < asize[theBalloc] && !validBlk(b) ==> abits[theBalloc][b]) && abits[theIalloc][0] && abits[theIalloc][1] && asize[theBalloc] == 32768*(dsksize/32768+1) && asize[theIalloc] == 32768
 
 //@ spec (*AllocTxn).AssertValidBlock
 //@   props C11 C15
